@@ -23,7 +23,7 @@ import numpy as np
 from harness import core
 
 PA = dict(r0=0.15, N=4, delta=0.1, L0=20.0, l0=0.01)
-PB = dict(r0=0.2, N=6, delta=0.05, L0=10.0, l0=0.005)
+PB = dict(r0=0.2, N=5, delta=0.05, L0=10.0, l0=0.005)          # an odd grid
 PA2 = dict(PA, r0=PA["r0"] * (1 + 4e-6))          # almost, but not, the parameters of A
 
 
@@ -70,11 +70,11 @@ class World:
         if a == "new":
             o = rec["o"]
             if o == "o3":
-                self.objs[o] = self.ips.PhaseScreenKolmogorov(5, 0.5, 0.2, 20.0, random_seed=2, stencil_length_factor=2)
+                self.objs[o] = self.ips.PhaseScreenKolmogorov(5, 0.5, 0.2, 20.0, random_seed=0, stencil_length_factor=2)     # seed 0 is a seed
             elif o == "o4":
                 self.objs[o] = self.ips.PhaseScreenVonKarman(4, 0.5, 0.1, 20.0, random_seed=1)
             elif o == "o5":
-                self.objs[o] = self.ips.PhaseScreenVonKarman(6, 0.5, 0.2, 20.0, random_seed=3)
+                self.objs[o] = self.ips.PhaseScreenVonKarman(7, 0.5, 0.2, 20.0, random_seed=3)          # odd size
             else:
                 self.objs[o] = self.ips.PhaseScreenVonKarman(4, 0.5, 0.2, 20.0, random_seed=1)
             return np.array(self.objs[o].scrn, copy=True)
